@@ -27,14 +27,14 @@ var nilableFields = map[string]bool{
 	"execOpts.state":                      true,
 	"nodeInputJSON.ScriptSig":             true,
 	"nodeOutputJSON.ScriptPubKey":         true,
-	"nodeUTXOWrapper.UTXO":                true,
-	"nodeOutputWrapper.Output":            true,
-	"nodeTxWrapper.Tx":                    true,
 	"InscriptionArgs.LockingScriptPrefix": true,
 	"InscriptionArgs.EnrichedArgs":        true,
 	"[]*nodeInputJSON":                    true,
 	"[]*nodeOutputJSON":                   true,
 }
+
+// rules for which unbounded allocation sizes are violations (decoders of untrusted bytes)
+var allocRules = map[string]bool{"P-dec": true}
 
 var pEngineCache = map[*Prog]*PEngine{}
 
@@ -76,6 +76,13 @@ func runP(c *Ctx, rule string, specs []entrySpec, minFuncs, minPCIs int) {
 	byKind := map[string]int{}
 	for _, fn := range fns {
 		for _, p := range pe.enumerate(fn, isEntry[fn]) {
+			if p.kind == "alloc" && !allocRules[rule] {
+				ok, _, _ := pe.discharge(p)
+				if !ok {
+					c.InfoNote(rule, p.key, posOfInstr(p.ins), "allocation size is not bounded by existing memory or a constant (resource use, not decided for this property)")
+				}
+				continue
+			}
 			n++
 			byKind[p.kind]++
 			ok, facts, why := pe.discharge(p)
@@ -375,4 +382,44 @@ func configureInterpP(c *Ctx) *PEngine {
 		return fn.Signature.Recv() == nil && g.handlers[fn.Name()] && pkgPathOf(fn) == modPath+"/bscript/interpreter"
 	}
 	return pe
+}
+
+var decodeEntries = []entrySpec{
+	{"", "", "NewTxFromBytes"}, {"", "", "NewTxFromStream"}, {"", "", "NewTxFromString"},
+	{"", "*Tx", "ReadFrom"}, {"", "*Txs", "ReadFrom"},
+	{"", "*Input", "ReadFrom"}, {"", "*Input", "ReadFromExtended"}, {"", "*Output", "ReadFrom"}, {"", "*VarInt", "ReadFrom"},
+	{"", "*Tx", "UnmarshalJSON"}, {"", "*Input", "UnmarshalJSON"}, {"", "*Output", "UnmarshalJSON"}, {"", "*UTXO", "UnmarshalJSON"},
+	{"", "*nodeTxWrapper", "UnmarshalJSON"}, {"", "*nodeTxsWrapper", "UnmarshalJSON"}, {"", "*nodeOutputWrapper", "UnmarshalJSON"},
+	{"", "*nodeUTXOWrapper", "UnmarshalJSON"}, {"", "*nodeUTXOsWrapper", "UnmarshalJSON"},
+	{"bscript", "*Script", "UnmarshalJSON"},
+}
+
+func rulePDec(c *Ctx) {
+	pEngine(c)
+	runP(c, "P-dec", decodeEntries, 20, 20)
+}
+
+var inspectEntries = []entrySpec{
+	{"bscript", "*Script", "ScriptType"}, {"bscript", "*Script", "IsP2PKH"}, {"bscript", "*Script", "IsP2PK"}, {"bscript", "*Script", "IsP2SH"},
+	{"bscript", "*Script", "IsData"}, {"bscript", "*Script", "IsMultiSigOut"}, {"bscript", "*Script", "IsInscribed"}, {"bscript", "*Script", "IsP2PKHInscription"},
+	{"bscript", "*Script", "PublicKeyHash"}, {"bscript", "*Script", "Addresses"}, {"bscript", "*Script", "ToASM"}, {"bscript", "*Script", "ParseInscription"},
+	{"bscript", "*Script", "Slice"}, {"bscript", "*Script", "String"}, {"bscript", "*Script", "MarshalJSON"}, {"bscript", "", "DecodeParts"}, {"bscript", "", "DecodeStringParts"},
+	{"", "*nodeOutputJSON", "fromOutput"}, {"", "*nodeTxWrapper", "MarshalJSON"}, {"", "*nodeOutputWrapper", "MarshalJSON"},
+}
+
+func rulePInsp(c *Ctx) {
+	pEngine(c)
+	runP(c, "P-insp", inspectEntries, 15, 40)
+}
+
+var marshalEntries = []entrySpec{
+	{"", "*Tx", "MarshalJSON"}, {"", "*Input", "MarshalJSON"}, {"", "*Output", "MarshalJSON"}, {"", "*UTXO", "MarshalJSON"},
+	{"", "*nodeTxWrapper", "MarshalJSON"}, {"", "nodeTxsWrapper", "MarshalJSON"}, {"", "*nodeOutputWrapper", "MarshalJSON"},
+	{"", "*nodeUTXOWrapper", "MarshalJSON"}, {"", "nodeUTXOsWrapper", "MarshalJSON"}, {"bscript", "*Script", "MarshalJSON"},
+	{"", "*Tx", "NodeJSON"}, {"", "*Txs", "NodeJSON"}, {"", "*Output", "NodeJSON"}, {"", "*UTXO", "NodeJSON"}, {"", "*UTXOs", "NodeJSON"},
+}
+
+func rulePJSON(c *Ctx) {
+	pEngine(c)
+	runP(c, "P-json", marshalEntries, 15, 20)
 }
